@@ -79,6 +79,10 @@ def main():
             sh(['git', '-C', '/repo', 'worktree', 'remove', '--force', wt])
             shutil.rmtree(wt, ignore_errors=True)
             sh(['git', '-C', '/repo', 'worktree', 'prune'])
+            import glob
+            import hashlib
+            key = hashlib.sha1(os.path.realpath(wt).encode()).hexdigest()[:10]
+            shutil.rmtree(os.path.join(VERIF, 'out', 'lean_mut_' + key), ignore_errors=True)
     caught = [c for c in res.get('checks', []) if c['rc'] == 1 and c['violations']]
     with_replay = [c for c in caught if any('no-failing-input-found' not in v for v in c['violations'])]
     verdict = 'NOT-APPLIED' if not res.get('applied') else ('CAUGHT-WITH-REPLAY' if with_replay else ('CAUGHT-NO-INPUT' if caught else 'MISSED'))
